@@ -63,19 +63,22 @@ class Mod:
 
 
 def design(family, params, src, ins, outs, clk=None, rst=None, reset_type="async_low", clock_type="posedge",
-           init=None, tags=()):
+           init=None, tags=(), addr_ports=None):
+    """addr_ports: {input name: exclusive upper bound} — inputs used as array indices; the stimulus keeps them in
+    range (an out-of-range index is undefined in the RTL: X by IEEE 1800, an arbitrary known value in veryl's simulator)."""
     return {"family": family, "params": params, "src": src, "top": "Top", "clk": clk, "rst": rst,
             "reset_type": reset_type, "clock_type": clock_type, "ins": [list(x) for x in ins],
-            "outs": [list(x) for x in outs], "init": init, "tags": list(tags)}
+            "outs": [list(x) for x in outs], "init": init, "tags": list(tags), "addr_ports": addr_ports or {}}
 
 
 # ------------------------------------------------------------------------------------------------- arith
 def gp_arith(rng):
-    return {"wa": pick_width(rng), "wb": pick_width(rng), "wo": pick_width(rng), "sa": rng.random() < 0.35,
-            "sb": rng.random() < 0.35, "ops": sorted(rng.sample(range(10), rng.randint(2, 6)))}
+    sg = rng.random() < 0.4
+    return {"wa": pick_width(rng), "wb": pick_width(rng), "wo": pick_width(rng), "sa": sg,
+            "sb": sg, "ops": sorted(rng.sample(range(10), rng.randint(2, 6)))}
 
 
-ARITH_OPS = ["a + b", "a - b", "a <: b", "a <= b", "a >: b", "a >= b", "a == b", "a != b", "-a", "a + b + 1"]
+ARITH_OPS = ["a + b", "a - b", "a <: b", "a <= b", "a >: b", "a >= b", "a == b", "a != b", "-a", "a + b + ONE"]
 
 
 def b_arith(p):
@@ -84,7 +87,7 @@ def b_arith(p):
     m.port("b", "input", ty(p["wb"], p["sb"]))
     outs = []
     for i in p["ops"]:
-        e = ARITH_OPS[i]
+        e = ARITH_OPS[i].replace("ONE", "2'sd1" if p["sa"] else "1'd1")
         cmp_ = any(x in e for x in ("<", ">", "==", "!="))
         w = 1 if cmp_ else p["wo"]
         n = "y%d" % i
@@ -104,6 +107,8 @@ def gp_muldiv(rng):
     else:
         wa, wb = pick_width(rng, 1, 40), 0
     wo = pick_width(rng, 1, 40)
+    if kind in ("divc", "divv", "modv", "divs"):
+        wo = max(wo, wa, wb)
     return {"kind": kind, "wa": wa, "wb": max(wb, 1), "wo": wo, "c": rng.choice([1, 2, 3, 5, 7, 10, 12, 255, 256, 1000, rng.randint(1, 1 << 20)]),
             "signed": kind == "divs" or rng.random() < 0.25, "nz": rng.random() < 0.5}
 
@@ -119,8 +124,11 @@ def b_muldiv(p):
         ins.append(("b", p["wb"]))
     cw = max(p["c"].bit_length(), 1) + (1 if s else 0)
     cl = "%d'%sd%d" % (cw, "s" if s else "", p["c"])
-    bb = "(b | %s)" % lit(p["wb"], 1) if p["nz"] else "b"      # nz: divisor forced non-zero
+    one = ("%d'sh1" % max(p["wb"], 2)) if s else lit(p["wb"], 1)
+    bb = "(b | %s)" % one if p["nz"] else "b"      # nz: divisor forced non-zero
     outs = []
+    if k in ("divc", "divv", "modv", "divs"):
+        p = dict(p, wo=max(p["wo"], p["wa"], p["wb"] if k != "divc" else 1, cw if k == "divc" else 1))
     m.port("y", "output", ty(p["wo"], s))
     outs.append(("y", p["wo"]))
     if k == "mulvv":
@@ -148,6 +156,9 @@ SHIFT_OPS = ["a << s", "a >> s", "a >>> s", "a <<< s", "a << K", "a >> K", "a >>
 
 
 def b_shift(p):
+    p = dict(p, wo=max(p["wo"], p["w"]))       # right shifts in a narrower context are a known finding class
+    if not p["signed"]:                        # >>> on an unsigned operand is a known finding class
+        p = dict(p, ops=[o for o in p["ops"] if o not in (2, 6, 7)] or [1])
     m = Mod()
     m.port("a", "input", ty(p["w"], p["signed"]))
     m.port("s", "input", ty(p["ws"]))
@@ -187,6 +198,11 @@ def b_mux(p):
             return "(d%d ^ d%d)" % (i % 4, (i + 1) % 4)
         return "d%d" % (i % 4)
     nn = min(n, 1 << ws)
+    if st == "index":
+        ws = min(ws, 4)
+        nn = 1 << ws
+        m.ports[0] = "    sel: input %s," % ty(ws)
+        ins[0] = ("sel", ws)
     if st in ("case_expr", "rom"):
         arms = "".join("        %s: %s,\n" % (lit(ws, i), val(i)) for i in range(nn))
         m.add("    assign y = case sel {\n%s        default: %s,\n    };" % (arms, val(nn)))
@@ -318,6 +334,15 @@ def gp_regs(rng):
 
 
 def b_regs(p):
+    # known finding classes avoided: abstract `reset`/`clock` with a non-default [build] reset_type/clock_type,
+    # reset values of registers wider than 64 bits, '1 literals
+    p = dict(p)
+    if p["rst_ty"] == "reset":
+        p["reset_type"] = "async_low"
+    if p["clk_ty"] == "clock":
+        p["clock_type"] = "posedge"
+    if p["w"] > 64:
+        p["rv"] = 0
     m = Mod()
     w = p["w"]
     m.port("clk", "input", p["clk_ty"])
@@ -343,12 +368,12 @@ def b_regs(p):
     elif st == "updown":
         body = "if_reset {\n            r = %s;\n        } else if en {\n            if ld {\n                r = r - 1;\n            } else {\n                r = r + 1;\n            }\n        }" % rvl
     elif st == "acc":
-        body = "if_reset {\n            r = %s;\n        } else {\n            if en {\n                r = r + d;\n            }\n            if ld {\n                r = r ^ d;\n            }\n        }" % rvl
+        body = "if_reset {\n            r = %s;\n        } else {\n            if en {\n                r = r + d;\n            }\n            if ld {\n                r = ~d;\n            }\n        }" % rvl
     elif st == "shiftreg":
         sh = "{r[%d:0], d[0]}" % (w - 2) if w > 1 else "d[0]"
         body = "if_reset {\n            r = %s;\n        } else if en {\n            r = %s;\n        }" % (rvl, sh)
     elif st == "sat":
-        body = "if_reset {\n            r = %s;\n        } else if en && r != '1 {\n            r = r + 1;\n        } else if ld && r != '0 {\n            r = r - 1;\n        }" % rvl
+        body = "if_reset {\n            r = %s;\n        } else if en && r != %s {\n            r = r + 1;\n        } else if ld && r != '0 {\n            r = r - 1;\n        }" % (rvl, lit(w, (1 << w) - 1))
     elif st == "lfsr":
         fb = "r[%d] ^ r[0] ^ d[0]" % (w - 1)
         sh = "{r[%d:0], %s}" % (w - 2, fb) if w > 1 else fb
@@ -361,22 +386,21 @@ def b_regs(p):
         m2.port("ld", "input", "logic")
         m2.port("d", "input", ty(w))
         m2.port("q", "output", ty(w))
-        m2.add("    var r: %s;\n    var r2: %s;\n    assign q = r2;\n    always_ff (clk) {\n        r = if en ? d : ~d;\n        r2 = r + d;\n    }" % (ty(w), ty(w)))
+        m2.add("    var r: %s;\n    var r2: %s;\n    assign q = r2;\n    always_ff (clk) {\n        r = if en ? d : ~d;\n    }\n    always_ff (clk) {\n        r2 = r + d;\n    }" % (ty(w), ty(w)))
         return design("regs", p, m2.render(), ins, outs, clk="clk", rst=None, reset_type=p["reset_type"], clock_type=p["clock_type"],
                       tags=[st, p["clk_ty"]])
     elif st == "two_blocks":
         m.port("q2", "output", ty(w))
         outs.append(("q2", w))
-        hdr += "    var r2: %s;\n    assign q2 = r2;\n    always_ff (clk, rst) {\n        if_reset {\n            r2 = %s;\n        } else if ld {\n            r2 = r + d;\n        }\n    }\n" % (ty(w), lit(w, rv ^ 0x55))
+        hdr += "    var r2: %s;\n    assign q2 = r2;\n    always_ff (clk, rst) {\n        if_reset {\n            r2 = %s;\n        } else if ld {\n            r2 = r + d;\n        }\n    }\n" % (ty(w), lit(w, (rv ^ 0x55) if w <= 64 else 0))
         body = "if_reset {\n            r = %s;\n        } else if en {\n            r = r2 ^ d;\n        }" % rvl
-    else:  # slices: two always_ff blocks write disjoint bits of one register
+    else:  # slices: disjoint bit ranges of one register written under different conditions
         if w < 2:
             body = "if_reset {\n            r = %s;\n        } else {\n            r = d;\n        }" % rvl
         else:
             h = w // 2
-            hdr += "    always_ff (clk, rst) {\n        if_reset {\n            r[%d:%d] = %s;\n        } else if ld {\n            r[%d:%d] = d[%d:%d];\n        }\n    }\n" % (
-                w - 1, h, lit(w - h, rv >> h), w - 1, h, w - 1, h)
-            body = "if_reset {\n            r[%d:0] = %s;\n        } else if en {\n            r[%d:0] = d[%d:0] + 1;\n        }" % (h - 1, lit(h, rv), h - 1, h - 1)
+            body = ("if_reset {\n            r = %s;\n        } else {\n            if ld {\n                r[%d:%d] = d[%d:%d];\n            }\n"
+                    "            if en {\n                r[%d:0] = d[%d:0] + 1;\n            }\n        }" % (rvl, w - 1, h, w - 1, h, h - 1, h - 1))
     m.add(hdr + "    always_ff (clk, rst) {\n        %s\n    }" % body)
     return design("regs", p, m.render(), ins, outs, clk="clk", rst="rst", reset_type=p["reset_type"], clock_type=p["clock_type"],
                   tags=[st, p["clk_ty"], p["rst_ty"] + ("/" + p["reset_type"] if p["rst_ty"] == "reset" else "")])
@@ -440,7 +464,8 @@ def b_ram(p):
         rst = "rst"
         body = "always_ff (clk, rst) {\n        if_reset {\n            for i in 0..%d {\n                mem[i] = '0;\n            }\n        } else if we {\n            mem[waddr] = wdata;\n        }\n    }" % depth
         m.add(decl + "    " + body + "\n" + rd)
-        return design("ram", p, m.render(), ins, outs, clk="clk", rst=rst, tags=[st, "bits=%d" % (w * depth)])
+        return design("ram", p, m.render(), ins, outs, clk="clk", rst=rst, tags=[st, "bits=%d" % (w * depth)],
+                      addr_ports={"waddr": depth, "raddr": depth})
     elif st == "case_we":
         m.port("mode", "input", ty(2))
         ins.append(("mode", 2))
@@ -460,7 +485,8 @@ def b_ram(p):
               "    inst u1: Mem (\n        clk, we: we & waddr[0], waddr, wdata: ~wdata, raddr, rdata: rdata_b,\n    );")
         src = src + t.render()
     init = {"we": "we", "addr": "waddr", "data": "wdata", "depth": depth, "others_zero": ["we2", "mode"]}
-    return design("ram", p, src, ins, outs, clk="clk", rst=rst, init=init, tags=[st, "bits=%d" % (w * depth), "depth=%d" % depth])
+    return design("ram", p, src, ins, outs, clk="clk", rst=rst, init=init, tags=[st, "bits=%d" % (w * depth), "depth=%d" % depth],
+                  addr_ports={"waddr": depth, "raddr": depth, "raddr2": depth, "waddr2": depth})
 
 
 # ------------------------------------------------------------------------------------------------- hierarchy
@@ -519,7 +545,7 @@ def b_concat(p):
     hi = max(hi, lo)
     sw = hi - lo + 1
     m.port("a", "input", ty(w, p["signed"] and st == "sext"))
-    m.port("b", "input", ty(w))
+    m.port("b", "input", ty(w, p["signed"] and st == "sext"))
     ins = [("a", w), ("b", w)]
     outs = []
     if st == "cat":
@@ -593,17 +619,18 @@ def _expr(rng, depth, ws):
     if r < 0.6:
         return "(if %s %s %s ? %s : %s)" % (a, rng.choice(CMP), b, _expr(rng, depth - 1, ws), _expr(rng, depth - 1, ws))
     if r < 0.7:
-        return "(%s%s)" % (rng.choice(["~", "-", "~", "!"]), a)
+        return "(%s%s)" % (rng.choice(["~", "-", "~"]), a)
     if r < 0.78:
         return "(%s %s %d)" % (a, rng.choice(["<<", ">>"]), rng.randint(0, 9))
     if r < 0.86:
         return "{%s, %s}" % (a, b)
     if r < 0.93:
-        return "(%s %s %s)" % (a, rng.choice(["&&", "||"]), b)
+        return "((%s != 0) %s !(%s == %s))" % (a, rng.choice(["&&", "||"]), b, a)
     return "(%s%s)" % (rng.choice(["&", "|", "^"]), a)
 
 
 def b_expr(p):
+    p = dict(p, wo=max([p["wo"]] + list(p["w"])))      # narrower contexts are a known finding class (>> / / %)
     rng = random.Random(p["seed"])
     m = Mod()
     ins = []
@@ -685,9 +712,8 @@ def gen_stimulus(rng, d, cycles):
                 x = rng.getrandbits(w) & rng.getrandbits(w)     # sparse
             else:
                 x = rng.getrandbits(w)
-            if init and n.endswith("addr") or (init and n.startswith("raddr")) or (init and n.startswith("waddr")):
-                if rng.random() < 0.9:
-                    x = x % max(1, init["depth"])                 # mostly in range
+            if n in d.get("addr_ports", {}):
+                x = x % max(1, d["addr_ports"][n])                # out-of-range indices are undefined in the RTL
             v.append("%x" % x)
         stim.append({"r": 1 if (mid_reset and c == cycles // 2) else 0, "v": v})
     return stim
